@@ -150,37 +150,45 @@ def r7_first_result_kept(ctx):
     if not store:
         ctx.lost(rid, "assignment best_move = Some(..) inside the iteration loop")
         return
-    bad = []
-    judged = 0
-    for path, how in paths:
-        if rec[0] not in path:
-            continue        # the loop test failed: no iteration ran
-        pe = PathEval(f, path)
-        aborted = None
-        knows_answer = False
-        timing = []
-        for (d, c, b, ty) in pe.conds:
-            if path.index(b) < path.index(rec[0]):
-                continue
-            truth = c != ("in", (0,))
-            lv = list(leaves(d))
-            if any(x[0] == "f" and x[2] == "stop_as_soon_as_possible" for x in lv):
-                aborted = True if truth else (aborted or False)
-            elif any(x[0] == "call" and x[1].endswith("Option::is_none") for x in lv) and any(x[0] == "f" and x[2] == "mv" for x in lv):
-                aborted = True if truth else (aborted or False)
-            elif any(x == ("local", bm) for x in lv) or (d[0] == "discr" and ("local", bm) in list(leaves(d))):
-                knows_answer = True
-            else:
-                timing.append(show(d)[:90])
-        if aborted is None or aborted:
-            continue
-        judged += 1
-        if not (store & set(path)) and not knows_answer:
-            bad.append(timing)
-    ok = judged >= 1 and not bad
+    # one iteration as a decision table (inkalint/semtable.py): stop flag, "the iteration found a move", "an earlier
+    # answer exists", and whatever the clock comparison says - in any order, polarity or grouping of the tests
+    from ..semtable import explore, judge, TooBig
+
+    def var_of(t):
+        lv = [t] + list(leaves(t))
+        if t[0] == "f" and t[2] == "stop_as_soon_as_possible":
+            return "stop"
+        about_bm = any(x == ("local", bm) for x in lv)
+        about_mv = any(x[0] == "f" and x[2] == "mv" for x in lv)
+        if t[0] == "call" and t[1].endswith(("Option::is_none", "Option::is_some")):
+            neg = t[1].endswith("is_none")
+            if about_bm:
+                return ("earlier", neg)
+            if about_mv:
+                return ("found", neg)
+        if t[0] == "discr" and about_bm:
+            return "earlier"
+        if t[0] == "discr" and about_mv:
+            return "found"
+        if t[0] == "call" and "PartialOrd" in t[1] and t[1].rsplit("::", 1)[-1] in ("gt", "lt", "ge", "le"):
+            return "clock_test"
+        return None
+    domains = {"stop": [0, 1], "found": [0, 1], "earlier": [0, 1], "clock_test": [0, 1]}
+    hdr = heads[0]
+    try:
+        lvs = explore(f, var_of, domains, entry=rec[0], stop_at=lambda b: b == hdr, max_leaves=20000)
+    except TooBig as e:
+        ctx.lost(rid, "one iteration of Search::best_move as a decision table (%s)" % e)
+        return
+    viol, und, n = judge(lvs, ["stop", "found", "earlier"], domains, lambda lf: bool(store & set(lf.path)),
+                         lambda e: True, lambda e: e["stop"] == 0 and e["found"] == 1 and e["earlier"] == 0)
+    ok = n >= 1 and not viol
     ctx.ob(rid, "best_move|completed-iteration-kept-when-nothing-else", ok,
-           "" if ok else ("%d path(s) through one iteration finish the search normally (no stop flag, a move was found) and discard its move without having tested whether an answer exists yet; they branch on %s: with a zero budget the first iteration is discarded and the go is answered with the null move" % (len(bad), sorted({t for ts in bad for t in ts})[:3]) if bad else "no non-aborted path through an iteration found"),
-           ctx.where(f), sample={"iteration_paths": len(paths), "non_aborted_paths": judged})
+           "" if ok else ("an iteration that was not aborted (no stop flag, a move was found) while no earlier answer exists is discarded%s: with a zero budget the first iteration is thrown away and the go is answered with the null move"
+                          % (" when the clock test is %s" % viol[0][3].env.get("clock_test") if viol and "clock_test" in viol[0][3].env else "") if viol else "no non-aborted path through an iteration found"),
+           ctx.where(f), sample={"leaves": len(lvs), "cases": n})
+    for u in und[:1]:
+        ctx.lost(rid, "an iteration of Search::best_move under a condition the decision table cannot evaluate (%s)" % "; ".join(show(d) for d, cc in u[3].opaque)[:160])
 
 
 def r8_root_exits(ctx):
